@@ -784,7 +784,11 @@ def run(ck):
             rp["manual_expansion"] = c["manual"]
             rp["manual_answer"] = {k: v for k, v in b.items() if k in ("vm", "wasm", "vm_err", "wasm_err", "real_err")}
             if "vm" not in a:
-                if "vm" in b:
+                if str(a.get("expand_err", "")).startswith(("type-error", "parse-error", "top-type-error", "not-staged")):
+                    # rejected by the parser / the stage-aware type checker BEFORE translate_staging runs: nothing is
+                    # expanded, so there is no output to compare (typing of staged programs is not C09's subject)
+                    ck.add("src_staged_program_rejected_before_expansion")
+                elif "vm" in b:
                     prop_fail.append(("staged program fails (%s) but its hand-written expansion runs" % a.get("vm_err"), rp))
                 continue
             if "vm" not in b:
